@@ -70,6 +70,14 @@ func vfRunCacheCase(cs *vfCacheCase) {
 	idx := int64(0)
 	last := time.Now()
 	cs.Steps = cs.Steps[:0]
+	// what callers of the token cache use as keys are tokens: three dot-separated parts, the last of which (a signature) can be
+	// the same text for different tokens (HMAC tokens over the same header and payload prefix, deliberately forged look-alikes)
+	vfCacheKey := vfCacheKey
+	if tc != nil {
+		vfCacheKey = func(k int) string {
+			return fmt.Sprintf("k%d.cGF5bG9hZA.%s%d", k, strings.Repeat("SIGNATUREsignature", 3), (k/2)%5)
+		}
+	}
 	for _, op := range cs.Ops {
 		last = vfTick(last)
 		if op.O == "adv" {
